@@ -19,6 +19,14 @@ Theorem C09_kernels_are_the_source : forall (T : Type) (OP : ops T) (data : Z ->
   gen_indices_xy OP data l0 p0 dl dp lmax pmax = idx_kern OP l0 p0 dl dp.
 Proof. intros. split; [apply gen_nn_eq | split; [apply gen_bil_eq | apply gen_indices_xy_eq]]. Qed.
 Print Assumptions C09_kernels_are_the_source.
+(* ... and the per-pixel interpolators of the model are `_get_mask_and_adjusted_indices`, `block_nn_interpolator`,
+   `block_bilinear_interpolator` of gradient/__init__.py as they stand (regenerated likewise), over the reals *)
+Theorem C09_block_cores_are_the_source : forall (Dc : Z -> Z -> R) ny nx x y fill ys xs,
+  gen_mask_adjust RO (x, y) (ys, xs) = mask_adjust RO ys xs (Some (x, y)) /\
+  gen_block_nn RO (mk_arr2 (ny, nx) Dc) (x, y) fill (ys, xs) = block_nn RO Dc ny nx (x - IZR (sstart xs)) (y - IZR (sstart ys)) /\
+  gen_block_bil RO (mk_arr2 (ny, nx) Dc) (x, y) fill (ys, xs) = block_bil RO Dc ny nx (x - IZR (sstart xs)) (y - IZR (sstart ys)).
+Proof. intros. split; [apply gen_mask_adjust_RO | split; [apply gen_block_nn_RO | apply gen_block_bil_RO]]. Qed.
+Print Assumptions C09_block_cores_are_the_source.
 
 (* [exactL], [exactP] really are the position: the affine map takes them back to the point *)
 Theorem C09_exact_position_is_inverse : forall x0 y0 a b c e, c * b - e * a <> 0 -> forall tx ty,
@@ -221,3 +229,11 @@ Theorem C09_chunk_dependence_without_H_crop_refuted :
   ex_valued (ex_resample [2%Z; 1%Z] [3%Z]) = [[true; true; true]; [true; true; true]; [false; false; false]].
 Proof. split; vm_compute; reflexivity. Qed.
 Print Assumptions C09_chunk_dependence_without_H_crop_refuted.
+
+(* why H_notie is there: the same point (2.5, 2.5), seen from a crop starting at 0 and from a crop starting at 1,
+   is given two different source pixels by block_nn_interpolator (np.rint rounds the block-relative index to even) *)
+Example C09_nn_tie_depends_on_crop_offset :
+  let D := fun l p : Z => Z2F (10 * l + p) in
+  block_nn F64 (shift2 D 0 0) 5 5 (PrimFloat.sub 2.5 (Z2F 0)) (PrimFloat.sub 2.5 (Z2F 0)) = 22%float /\
+  block_nn F64 (shift2 D 1 1) 4 4 (PrimFloat.sub 2.5 (Z2F 1)) (PrimFloat.sub 2.5 (Z2F 1)) = 33%float.
+Proof. split; vm_compute; reflexivity. Qed.
